@@ -15,8 +15,8 @@ import (
 // exactly the happens-before edges of the primitives they replace.
 const RaceEnabled = true
 
-func raceDisable()                       { runtime.RaceDisable() }
-func raceEnable()                        { runtime.RaceEnable() }
-func raceAcquire(p unsafe.Pointer)       { runtime.RaceAcquire(p) }
-func raceRelease(p unsafe.Pointer)       { runtime.RaceRelease(p) }
-func raceReleaseMerge(p unsafe.Pointer)  { runtime.RaceReleaseMerge(p) }
+func raceDisable()                      { runtime.RaceDisable() }
+func raceEnable()                       { runtime.RaceEnable() }
+func raceAcquire(p unsafe.Pointer)      { runtime.RaceAcquire(p) }
+func raceRelease(p unsafe.Pointer)      { runtime.RaceRelease(p) }
+func raceReleaseMerge(p unsafe.Pointer) { runtime.RaceReleaseMerge(p) }
